@@ -37,6 +37,11 @@ func escapeRDNAttrValue(s string) string {
 		escape := false
 
 		switch c {
+		case 0:
+			// RFC 4514, 2.4: the null character is written as \00
+			escaped = append(escaped, '\\', '0', '0')
+			continue
+
 		case ',', '+', '"', '\\', '<', '>', ';':
 			escape = true
 
